@@ -20,6 +20,7 @@ def root_rule(fn):
     if cls.get('tn') != T + 'normal' or fn['n'] != 'match': return None
     rt = (cls.get('a') or [{}])[0]
     s = rt.get('s', '')
+    if s in equiv.CHAIN_SPECS: return 'if_then', s
     if not s.startswith(T): return None
     name = (rt.get('tn') or rt.get('q') or '')[len(T):]
     if name.startswith('internal::'):
